@@ -14,7 +14,8 @@
    rdclass = "-" marks the untyped base class (dns.set.Set): it accepts anything and has
    no TTL.  `frozen` marks an immutable set.
 
-   Operations are defined OPERATIONALLY, the way the API documents them ("add the
+   Whether a call is refused and what it returns are the operators Refused and
+   Returned; they are not state.  Operations are defined OPERATIONALLY, the way the API documents them ("add the
    elements of other that are not already in the set", "remove the elements that are not
    in both", ...) by recursion over the sequences.  The Law_* invariants then state the
    set-theoretic meaning in closed form; TLC checks that the two agree on every reachable
@@ -35,10 +36,9 @@ CONSTANTS Handles,         \* 1..N
           MaxIndex         \* bound for positional deletes (model checking only)
 
 VARIABLES hs,    \* hs[h] = [items, ttl, rdclass, rdtype, covers, frozen]
-          res,   \* "ok" | "refused": outcome of the last call
-          ret,   \* value returned by the last call (pop), else <<"-">>
-          last   \* [kind, h]: what the last step was and which handle it targeted
-vars == <<hs, res, ret, last>>
+          last   \* [kind, h]: what the last step was ("init", "inplace", "copy", "freeze",
+                 \* "refused") and which handle it targeted
+vars == <<hs, last>>
 
 NoTtl == -1
 Untyped == "-"
@@ -101,6 +101,14 @@ UnionRec(R, O) == Merge(R, O.items)
 InterRec(R, O) == [R EXCEPT !.items = Keep(R.items, ClsSet(O.items))]
 DiffRec(R, O) == [R EXCEPT !.items = Drop(R.items, ClsSet(O.items))]
 SymNew(R, O) == Drop(O.items, ClsSet(R.items))
+(* "build": a new set constructed from a list of records (here: the records of R followed
+   by those of O) and a TTL - Set(iterable), from_rdata_list(ttl, rdatas).  The kind of
+   the new set is that of the first record; an empty list makes no typed set. *)
+FreshFor(i) == [items |-> <<>>, ttl |-> 0, rdclass |-> i[1], rdtype |-> i[2],
+                covers |-> IF i[1] # Untyped /\ i[2] \in SigTypes THEN "NONE" ELSE i[3], frozen |-> FALSE]
+BuildSeq(R, O) == R.items \o O.items
+BuildRec(R, O) == IF BuildSeq(R, O) = <<>> THEN [R EXCEPT !.items = <<>>, !.frozen = FALSE]
+                  ELSE Merge(FreshFor(BuildSeq(R, O)[1]), BuildSeq(R, O))
 SymRec(R, O) == Merge(DiffRec(R, O), SymNew(R, O))
 
 ---------------------------------------------------------------------------
@@ -108,7 +116,7 @@ SymRec(R, O) == Merge(DiffRec(R, O), SymNew(R, O))
    the fields it needs.  O is hs[a.o]. *)
 InPlaceOps == {"add", "remove", "discard", "pop", "clear", "update", "union", "inter", "diff", "sym",
                "delidx", "delslice"}
-CopyOps == {"union", "inter", "diff", "sym", "copy"}
+CopyOps == {"union", "inter", "diff", "sym", "copy", "build"}
 BinaryOps == {"update", "union", "inter", "diff", "sym"}
 
 Refused(op, R, O, a) ==
@@ -118,6 +126,8 @@ Refused(op, R, O, a) ==
       [] op = "delidx" -> a.k >= Len(R.items)
       [] op \in {"update", "union"} -> ~CanMerge(R, O.items)
       [] op = "sym" -> ~CanMerge(DiffRec(R, O), SymNew(R, O))
+      [] op = "build" -> \/ (IsTyped(R) /\ (BuildSeq(R, O) = <<>> \/ a.ttl = NoTtl))
+                         \/ (BuildSeq(R, O) # <<>> /\ ~CanMerge(FreshFor(BuildSeq(R, O)[1]), BuildSeq(R, O)))
       [] OTHER -> FALSE
 
 (* items / covers after the call (TTL is handled separately) *)
@@ -132,6 +142,7 @@ Result(op, R, O, a) ==
       [] op = "inter" -> InterRec(R, O)
       [] op = "diff" -> DiffRec(R, O)
       [] op = "sym" -> SymRec(R, O)
+      [] op = "build" -> BuildRec(R, O)
       [] OTHER -> R                                                        \* copy
 
 Returned(op, R, a) == IF op = "pop" /\ a.k \in 1..Len(R.items) THEN R.items[a.k] ELSE None
@@ -164,6 +175,7 @@ Ttls(op, R, O, a) ==
       [] op \in {"update", "union"} -> MergeTtls(R, O)
       [] op \in {"inter", "diff"} -> KeepTtls(R, O)
       [] op = "sym" -> SymTtls(R, O)
+      [] op = "build" -> IF IsTyped(R) THEN {a.ttl} ELSE {R.ttl}     \* first insertion takes the TTL given
       [] OTHER -> {R.ttl}
 (* the TTL of a set that ends up empty means nothing: any value *)
 TtlOk(op, R, O, a, nt) ==
@@ -172,7 +184,7 @@ TtlOk(op, R, O, a, nt) ==
 
 ---------------------------------------------------------------------------
 (* Steps *)
-Refuse(h) == /\ res' = "refused" /\ ret' = None /\ UNCHANGED hs
+Refuse(h) == /\ UNCHANGED hs
              /\ last' = [kind |-> "refused", h |-> h]
 
 (* in-place call on handle h.  nt = the TTL the set has afterwards.  quiet = the receiver
@@ -188,7 +200,6 @@ Do(op, h, a, nt, quiet) ==
           THEN Refuse(h)
           ELSE /\ TtlOk(op, R, O, a, nt)
                /\ hs' = [hs EXCEPT ![h] = New]
-               /\ res' = "ok" /\ ret' = Returned(op, R, a)
                /\ last' = [kind |-> "inplace", h |-> h]
 
 (* copying call: a new object, bound to handle r, computed from handle s (and a.o);
@@ -202,14 +213,13 @@ Make(op, r, s, a, nt, fr) ==
           ELSE /\ TtlOk(op, R, O, a, nt)
                /\ fr => R.frozen
                /\ hs' = [hs EXCEPT ![r] = [Result(op, R, O, a) EXCEPT !.ttl = nt, !.frozen = fr]]
-               /\ res' = "ok" /\ ret' = None
                /\ last' = [kind |-> "copy", h |-> r]
 
 (* wrap the content of a typed set into an immutable set *)
 Freeze(h) ==
     /\ IsTyped(hs[h])
     /\ hs' = [hs EXCEPT ![h].frozen = TRUE]
-    /\ res' = "ok" /\ ret' = None /\ last' = [kind |-> "freeze", h |-> h]
+    /\ last' = [kind |-> "freeze", h |-> h]
 
 ---------------------------------------------------------------------------
 (* Argument universes (only the fields a call reads vary) *)
@@ -225,16 +235,21 @@ ArgSet(op, h) ==
          [] op = "delidx" -> {[D EXCEPT !.k = k] : k \in 0..MaxIndex}
          [] op = "delslice" -> {[D EXCEPT !.lo = lo, !.hi = hi] : lo \in 0..MaxIndex, hi \in 0..MaxIndex}
          [] op \in BinaryOps -> {[D EXCEPT !.o = o] : o \in Handles}
+         [] op = "build" -> {[D EXCEPT !.o = o, !.ttl = t] : o \in Handles, t \in IF IsTyped(R) THEN TTLs ELSE {NoTtl}}
          [] OTHER -> {D}
 
 Init == /\ hs \in InitStates
-        /\ res = "ok" /\ ret = None /\ last = [kind |-> "init", h |-> 0]
+        /\ last = [kind |-> "init", h |-> 0]
 
+(* Next enumerates the TTL choices the property constrains (Ttls); the actions also admit
+   any TTL for a set that ends up empty, which only trace validation needs. *)
 Next ==
     \/ \E op \in InPlaceOps, h \in Handles : \E a \in ArgSet(op, h) :
-         \E nt \in TTLs \cup {hs[h].ttl}, quiet \in BOOLEAN : Do(op, h, a, nt, quiet)
+         \E nt \in Ttls(op, hs[h], hs[a.o], a), quiet \in (IF hs[h].frozen THEN BOOLEAN ELSE {FALSE}) :
+            Do(op, h, a, nt, quiet)
     \/ \E op \in CopyOps, r \in Handles, s \in Handles : \E a \in ArgSet(op, s) :
-         \E nt \in TTLs \cup {hs[s].ttl}, fr \in BOOLEAN : Make(op, r, s, a, nt, fr)
+         \E nt \in Ttls(op, hs[s], hs[a.o], a), fr \in (IF hs[s].frozen THEN BOOLEAN ELSE {FALSE}) :
+            Make(op, r, s, a, nt, fr)
     \/ \E h \in Handles : Freeze(h)
 
 Spec == Init /\ [][Next]_vars
@@ -256,7 +271,7 @@ EqAllowed(A, B) ==
 ---------------------------------------------------------------------------
 (* Properties of the specification itself *)
 TypeOK ==
-    /\ res \in {"ok", "refused"}
+    /\ last.kind \in {"init", "inplace", "copy", "freeze", "refused"}
     /\ \A h \in Handles : hs[h].frozen \in BOOLEAN /\ hs[h].ttl \in Int
 Duplicates_Collapse == \A h \in Handles : NoDup(hs[h].items)
 Kind_Respected ==
@@ -298,6 +313,13 @@ Law_SymmetricDifference ==
             /\ ClsSet(S) = (A_(x) \ A_(y)) \cup (A_(y) \ A_(x))
             /\ NoDup(S)
             /\ S = DiffRec(R, O).items \o Drop(O.items, A_(x))
+Law_Build ==
+    \A x, y \in Handles :
+        LET R == hs[x]  O == hs[y] IN
+        (Plain(R) /\ BuildSeq(R, O) # <<>> /\ CanMerge(FreshFor(BuildSeq(R, O)[1]), BuildSeq(R, O))) =>
+            /\ ClsSet(BuildRec(R, O).items) = A_(x) \cup A_(y)
+            /\ NoDup(BuildRec(R, O).items)
+            /\ ClsSeq(BuildRec(R, O).items) = ClsSeq(UnionRec(R, O).items)
 (* s op s *)
 Law_Aliasing ==
     \A x \in Handles :
@@ -333,7 +355,7 @@ Law_Singleton ==
             ClsSeq(UnionRec(R, O).items) = <<Cls(O.items[Len(O.items)])>>
 
 (* step properties *)
-RefusedChangesNothing == [][res' = "refused" => hs' = hs]_vars
+RefusedChangesNothing == [][last'.kind = "refused" => hs' = hs]_vars
 OnlyTargetChanges == [][\A x \in Handles : x # last'.h => hs'[x] = hs[x]]_vars
 FrozenNeverChanges ==
     [][\A x \in Handles : (hs[x].frozen /\ ~(last'.kind = "copy" /\ last'.h = x)) => hs'[x] = hs[x]]_vars
